@@ -44,3 +44,12 @@ add("C16", OTHER, "SSA -> discrete-log symbolic execution (exponents mod p-1 as 
 add("C04", OTHER, "SSA -> ring-mode symbolic execution with SqrtRatio replaced by its contract (fork on wasSquare), certificates for the output equations, bit-vector path conditions for the sign bit; symbolic slice length",
     "All 2^256 strings: y is the field decoding (bit 255 ignored), SqrtRatio is called on (y^2-1, d*y^2+1), acceptance <=> wasSquare, output (+-r, y, 1, +-r*y) satisfies the curve and XY=ZT, x = -r exactly when bit 255 is set; rejects atomic; all other lengths rejected.",
     "Trusted: C16 contract for SqrtRatio (its own check), -1/d non-square (concrete), go/ssa, executor, z3.", "DESIGN.md 5/C04")
+add("C12", OTHER, "one inductive step per Point-producing operation: ring-mode certificates (formulas, decoders) + group-mode execution (scalar multiplications) + API-surface coverage computed from SSA",
+    "From arbitrary valid inputs and arbitrary receivers every exported producer yields a valid point: closure certificates incl. Z factorisations for Add/Subtract/Negate, accept => valid for SetBytes/SetExtendedCoordinates, scalar multiplications never build their result from an uninitialised or stale value; constructors copy valid constants. Histories of any length follow by induction.",
+    "As C01/C02/C04/C13; n <= 2 (quick) / 4 (thorough) for multi-scalar routines.", "DESIGN.md 5/C12")
+add("C14", OTHER, "SSA symbolic execution with effects log: symbolic contents and one symbolic length per setter; path feasibility by z3",
+    "For the seven fallible setters: every error path returns (nil, error) with no write to the receiver or the input; every success path returns the receiver with the input unwritten.",
+    "Data callees summarised by contracts as in C04/C08/C13.", "DESIGN.md 5/C14")
+add("C15", OTHER, "group-mode symbolic execution with one input position set to the Go zero value; the limb-level guard checked separately in bit-vectors; symbolic mismatched lengths",
+    "Every *Point input position of every exported operation (slice elements up to n=3): all feasible paths panic; mismatched slice lengths (both symbolic) panic; the real guard panics on the zero value and never on a point with a non-zero X or Y limb. Harness table checked against the API surface from SSA.",
+    "n <= 3 for slice positions.", "DESIGN.md 5/C15")
